@@ -3,13 +3,16 @@ from checks.pool_common import *
 
 
 def plan(tier):
-    # (owner program, max threads, K, complete runs?)   ops: 1 start(task), 2 clear(), 3 stop(), 4 wait for all submitted tasks, 5 update(); a final stop() is always appended
+    # (owner program, max threads, K, complete runs?, cube bits)   ops: 1 start(task), 2 clear(), 3 stop(), 4 wait for all submitted tasks, 5 update(); a final stop() is always appended
+    # racy configuration: scheduling points at the unsynchronised flag accesses and between predicate evaluation and blocking
     if tier == 'quick':
-        progs = [((1,), 1, 26, True), ((1, 3, 1), 1, 26, False)]
+        progs = [((1,), 1, 26, True, 4), ((1, 3, 1), 1, 22, False, 3)]
     else:
-        progs = [((1,), 1, 26, True), ((1, 3, 1), 1, 44, True), ((1, 1), 2, 34, False), ((1, 2, 1), 1, 30, False)]
-    return [pool_query('stop_%s_mt%d_k%d' % (''.join(str(o) for o in ops), mt, K), ops, mt, K, prefix_only=not full,
-                       expect_reach=('owner finished', 'all threads finished') if full else ()) for ops, mt, K, full in progs]
+        progs = [((1,), 1, 26, True, 4), ((1, 3, 1), 1, 44, True, 4), ((1, 1), 2, 30, False, 4), ((1, 2, 1), 1, 30, False, 4), ((1, 5, 1), 1, 28, False, 4)]
+    qs = []
+    for ops, mt, K, full, bits in progs:
+        qs += cubed(('stop_%s_mt%d_k%d' % (''.join(str(o) for o in ops), mt, K), ops, mt, K), dict(prefix_only=not full, expect_reach=('owner finished', 'all threads finished') if full else ()), bits, nthr_choices=min(mt, 2) + 1)
+    return qs
 
 
 def run(tier, seed):
